@@ -51,9 +51,14 @@ CLAIMS = {
         text='PROVED for all inputs/histories (frame contracts): save_spike_clusters writes exactly the spike-cluster file that loading reads; save_metadata writes only cluster_<name>.tsv; the subset export writes '
              'only its three files; close writes nothing; reload writes only the two load-time files. BOUNDED only: that a reload shows the last saved values (TSV codec, metadata dictionaries, subset-store waveforms '
              'equal raw windows) over all operation histories of length <= 3-4 plus random longer ones against a dictionary reference model.'),
-    'C11': dict(level='proof', technique=FRAME_TECH, note=FRAME_NOTE,
-        text='PROVED for all inputs (frame contract): Merger.merge writes only below the output directory (plus the two load-time files of the model loaded from it): the input directories are only read. '
-             'BOUNDED only: spike conservation, stable time order, per-probe id offsets, probe table, renumbered metadata, byte-identity of inputs, on 1-4 generated probe directories.'),
+    'C11': dict(level='proof',
+        text='PROVED for any number of probes, spike counts, id ranges and time vectors: _load_multiple_spike_times (the order is a permutation of the concatenation, merged times non-decreasing, simultaneous spikes keep '
+             'concatenation order = within-probe order and probe order across probes, from the stability of the sort); _load_multiple_spike_arrays (output i is the element at position order[i] of the block it came from); '
+             'Merger.write_spike_clusters (loop invariants over the lists of per-probe arrays): each probe\'s cluster and template ids are shifted by ONE per-probe offset and the id ranges of different probes never collide; '
+             'frame contract: Merger.merge writes only below the output directory (inputs are only read). BOUNDED only: renumbered TSV metadata, the probe table, amplitudes, byte-identity of inputs, end-to-end merges of 1-4 generated probes.',
+        note='Assumed: 1-D NumPy theory (stable argsort, gather, in-place +=, np.max, concatenation of lists of arrays); np.load returns fresh arrays; ids non-negative; every probe has a spike; the code\'s own consistency assert '
+             'max(id)+1 == table size is ASSUMED (needs that the spike order reaches every spike; bounded only); frame assumptions A-PURE / A-FS.',
+        assumptions=['A-LIB 1-D NumPy array theory (pyvc/npth.py)', 'A-ASSERT write_spike_clusters consistency assert assumed', 'A-PURE', 'A-FS']),
     'C12': dict(level='proof',
         text='PROVED for any number of probes, channel counts and channel maps: Merger.write_channel_data (loop invariant over the list of per-probe arrays) — the merged channel map consists of the probes\' maps '
              'as contiguous blocks in input order, each shifted by ONE per-probe constant (registered in channel_offsets), and channel_probe labels block k with k; _concat = blocks in order. BOUNDED only: '
@@ -64,6 +69,12 @@ CLAIMS = {
     'C13': dict(level='proof', technique=FRAME_TECH, note=FRAME_NOTE,
         text='PROVED for all inputs (frame contract): EphysAlfCreator.convert refuses (IOError) before any effect when output and source directories resolve to the same path; otherwise it writes only below the output '
              'directory, adds only the three subset files to the source and deletes only the temporary whitened file. BOUNDED only: first dimensions of the exported tables, uuids, labels, reload equality, on generated dense datasets.'),
+    'C14': dict(level='proof',
+        text='PROVED for any number of probes and any channel maps: make_channel_objects re-expresses the raw index of every channel relative to the shift of ITS probe (channel c of the q-th probe gets its merged map '
+             'entry minus the maximum map entry of the previous probe, 0 for the first) — loop invariant over the unique probes with boolean-mask gather/assignment; together with the Merger contract (C12: block k is shifted by the '
+             'maximum of block k-1) this recovers each probe\'s original channel map. BOUNDED only: nearest-channel lists, waveforms / amplitudes with the unit factor, depths, durations (numeric), on generated datasets and real merges of 1-4 probes.',
+        note='Assumed: 1-D NumPy theory (np.unique, comparisons, boolean-mask selection and assignment sharing one enumeration per mask, np.max); pmax(q) is defined by its two requires clauses.',
+        assumptions=['A-LIB 1-D NumPy array theory (pyvc/npth.py)']),
     'C17': dict(level='proof',
         text='PROVED for all grids / kept counts / times: SpikeSelector.__init__ keeps whole grid intervals at SOME regular stride starting with the first chunk, never more than requested, every strided chunk kept '
              '(loop invariant, existential stride with witness); _times_in_chunks flags a time exactly when it lies in some kept half-open interval (parity argument over the assumed searchsorted contract, incl. '
